@@ -944,6 +944,23 @@ class Evaluator:
         return None if unknown else False
 
     # ------------------------------------------------------------------ calls
+    def apply_closure(self, fn: "Closure", args: List[Any], kwargs: Dict[str, Any]) -> Any:
+        if fn.self_obj is not None:
+            args = [fn.self_obj] + list(args)
+        outs = self.call_function(fn.func, args, kwargs, fn.env if fn.func.parent is not None else None)
+        rets = [o for o in outs if o.kind == "return"]
+        raises = [o for o in outs if o.kind == "raise"]
+        if len(rets) == 1 and not raises:
+            self.events, self.conds = list(rets[0].events), list(rets[0].conds)
+            return rets[0].value
+        if not rets and raises and len({o.exc.exc_type for o in raises if o.exc}) == 1:
+            self.events = list(raises[0].events)
+            raise raises[0].exc  # type: ignore
+        if rets and all(_same(rets[0].value, o.value) for o in rets[1:]):
+            self.events = list(rets[0].events)
+            return rets[0].value
+        return TOP
+
     def call(self, e: ast.Call, env: Env, scope: Union[Func, Module]) -> Any:
         fn = self.eval(e.func, env, scope)
         args = []
@@ -966,26 +983,27 @@ class Evaluator:
                 return r
         if isinstance(fn, NewTypeV) and len(args) == 1 and not kwargs:
             return args[0]
+        # map / reduce of a known function over a known sequence
+        if name.split(".")[-1] in ("map", "reduce") and args and isinstance(args[0], Closure) and not kwargs:
+            def _seq(v: Any) -> Optional[List[Any]]:
+                if isinstance(v, Const) and isinstance(v.v, (list, tuple)):
+                    return [Const(x) for x in v.v]
+                if isinstance(v, (list, tuple)):
+                    return list(v)
+                return None
+            if name.split(".")[-1] == "map" and len(args) == 2:
+                seq = _seq(args[1])
+                if seq is not None:
+                    return [self.apply_closure(args[0], [x], {}) for x in seq]
+            if name.split(".")[-1] == "reduce" and len(args) in (2, 3):
+                seq = _seq(args[1])
+                if seq is not None and (len(args) == 3 or seq):
+                    acc = args[2] if len(args) == 3 else seq.pop(0)
+                    for x in seq:
+                        acc = self.apply_closure(args[0], [acc, x], {})
+                    return acc
         if isinstance(fn, Closure):
-            if fn.self_obj is not None:
-                args = [fn.self_obj] + args
-            outs = self.call_function(fn.func, args, kwargs, fn.env if fn.func.parent is not None else None)
-            rets = [o for o in outs if o.kind == "return"]
-            raises = [o for o in outs if o.kind == "raise"]
-            if len(rets) == 1 and not raises:
-                self.events, self.conds = list(rets[0].events), list(rets[0].conds)
-                return rets[0].value
-            if not rets and raises and len({o.exc.exc_type for o in raises if o.exc}) == 1:
-                self.events = list(raises[0].events)
-                raise raises[0].exc  # type: ignore
-            if rets and all(_same(rets[0].value, o.value) for o in rets[1:]) and not raises:
-                self.events = list(rets[0].events)
-                return rets[0].value
-            # several outcomes: value unknown; a raise is possible but not certain
-            if rets and all(_same(rets[0].value, o.value) for o in rets[1:]):
-                self.events = list(rets[0].events)
-                return rets[0].value
-            return TOP
+            return self.apply_closure(fn, args, kwargs)
         if isinstance(fn, tuple) and fn and fn[0] == "bound":
             if fn[2] in _MUTATORS and isinstance(fn[1], (Const, list, dict, set)) and not (isinstance(fn[1], Const) and isinstance(fn[1].v, (str, bytes, int, float, tuple, frozenset, type(None)))):
                 return self.mutate(e, fn[1], fn[2], args, env)
